@@ -46,7 +46,8 @@ ODD_IMPORTS = ["nosuchpkg_zz", "zcsim_notpkg", "os", "os.path", "json",
                "zcsim_p0.sub", "ZConfig", "ZConfig.components.basic",
                "ZConfig.components.logger", "zconfig.components.basic",
                "1abc", "a-b", "\u00e9", "sys", "__main__", "builtins",
-               "zcsim_p0:x", "zcsim_p0/component.xml", "email.mime"]
+               "zcsim_p0:x", "zcsim_p0/component.xml", "email.mime",
+               "zcsim_pnl", "zcsim_pnl", "ZCSIM_PNL"]
 
 
 def _lines(text):
